@@ -272,6 +272,16 @@ def _norm(e):
         if c == "BinaryOperator" and op in ("*", "/", "%"):
             t = e.func.unit.types.get(e.ty) or {}
             op, a, b = canon_pow2(op, a, b, unsigned=(t.get("kind") == "int" and t.get("signed") is False))
+        if c == "BinaryOperator" and a[0] == "c" and b[0] == "c" and isinstance(a[1], int) and isinstance(b[1], int) and op in ("+", "-", "*", "<<", ">>", "&", "|", "^"):
+            # two constants (the compiler folds the ones it sees; after a parameter has been replaced by a literal argument
+            # -- sa/inline.py -- some are left): folded when the result is a small non-negative number, whatever the width
+            try:
+                v = {"+": a[1] + b[1], "-": a[1] - b[1], "*": a[1] * b[1], "<<": a[1] << b[1] if 0 <= b[1] < 31 else None, ">>": a[1] >> b[1] if 0 <= b[1] < 63 else None,
+                     "&": a[1] & b[1], "|": a[1] | b[1], "^": a[1] ^ b[1]}[op]
+            except (ValueError, OverflowError):
+                v = None
+            if v is not None and 0 <= a[1] < 2 ** 31 and 0 <= b[1] < 2 ** 31 and 0 <= v < 2 ** 31:
+                return ("c", v)
         if c == "BinaryOperator" and op in COMMUTATIVE:
             a, b = commute(a, b)
         return (op, a, b)
